@@ -15,7 +15,7 @@ FRAGS = [b"<", b">", b"/", b"!", b"-", b"--", b"=", b'"', b"'", b" ", b"\n", b"a
     b"<g/>", b"<path d=1 />", b"<select>", b"</select>", b"<template>", b"</template>", b"<frameset>", b"<noframes>", b"</noframes>",
     b"<input>", b"<option>", b"<table>", b"<tr><td>", b"<!-->", b"<!--->", b"<!--x--!>", b"<a b='c' D=\"e\" f=g h>", b"<img src=x/>",
     b"<iframe>", b"</iframe>", b"<noscript>", b"</noscript>", b"<!-- <script> -->", b"<script><!--", b"<script><!--<script>",
-    b"</script>-->", b"<li class=x id=y>", b"<span>", b"</span>", b"<h1>", b"</h1>", b"<ul>", b"</ul>"]
+    b"</script>-->", b"<textarea a=>", b"<script x=>", b"<title y= >", b"<style z=>", b"<xmp q=>", b"<div a=>", b"<li class=x id=y>", b"<span>", b"</span>", b"<h1>", b"</h1>", b"<ul>", b"</ul>"]
 
 def doc(rng, maxfrags=10):
     k = 1 + rng.randrange(maxfrags)
